@@ -235,7 +235,7 @@ class CallMixin:
         st.ghost["alloc"] = st.ghost.get("alloc", z3.BitVecVal(0, 64)) + z3.If(inplace, idx(0), newcap * idx(self.elem_size(et)))
         # in-place write (only when it fits) and the grown copy
         if not z3.is_false(inplace):
-            self.frame_region_write(st.fork(zand(st.pc, inplace)), s.rid, s.off + s.ln)
+            self.frame_region_write(st.fork(zand(st.pc, inplace, z3.simplify(k > 0))), s.rid, s.off + s.ln)
         for i, (_, srt) in enumerate(leaves(et)):
             key = self.mem_key(et, i, srt)
             m = self.mem_arr(st, key, srt)
@@ -616,11 +616,13 @@ class CallMixin:
                     post.vars[nm["obj"]] = results[j]
                 j += 1
         st.mem, st.heap, st.ghost = post.mem, post.heap, post.ghost
-        for cl in c.of("ensures"):
+        for cl in c.of("ensures") + c.of("trusts"):
             if cl.get("canary"):
                 continue
             g = self.eval_clause(cl, post, results=results, old=pre)
             self.assume(st, g)
+            if cl["kind"] == "trusts":
+                self.assumptions.add("trusted (unproved) postcondition of %s: %s" % (self.prog.short(f.full), cl["text"]))
         st.mem, st.heap, st.ghost = post.mem, post.heap, post.ghost
         self.called_contracts.add(f.full)
         if len(results) == 1:
@@ -660,6 +662,18 @@ class CallMixin:
                 ft = [x for x in t.fields() if x[0] == fn][0][1]
                 lv = HeapLV(oid, t, fn, ft)
                 self.frame_obj_write(st, oid, t, fn)
+                if ft.under().k == "slice" and is_scalar_type(ft.elem()):
+                    # the callee may append in place: the array the field points to may change beyond the current length
+                    cur = lv.get(self, post)
+                    srt = leaves(ft.elem())[0][1]
+                    key = self.mem_key(ft.elem(), 0, srt)
+                    mm = self.mem_arr(post, key, srt)
+                    oldarr = z3.Select(mm, cur.rid)
+                    hv = self.fresh("reg@callfield", z3.ArraySort(IS, srt))
+                    pq = z3.BitVec("p", IDX_BITS)
+                    self.facts.append(z3.ForAll([pq], z3.Implies(pq < cur.off + cur.ln, z3.Select(hv, pq) == z3.Select(oldarr, pq))))
+                    self.frame_region_write(st.fork(zand(st.pc, cur.cap > cur.ln)), cur.rid, cur.off + cur.ln)
+                    post.mem[key] = z3.Store(mm, cur.rid, hv)
                 saved = self.frame_spec
                 self.frame_spec = None
                 v = self.fresh_value(ft, "%s.%s@call" % (via, fn))
